@@ -5,7 +5,7 @@ package sim
 func init() {
 	stdProp(&PropSpec{
 		ID: "C17", Level: "exploration",
-		Verdict: []string{"bulk.", "copy.", "bytes.", "struct.", "witness.verify", "reach.", "deep.", "res.", "size.", "panic", "reopen", "reg.parse"},
+		Verdict: []string{"bulk.", "copy.", "bytes.", "struct.", "inline.", "witness.verify", "reach.", "deep.", "res.", "size.", "panic", "reopen", "reg.parse"},
 		Rule: "bulk steps inside ordinary histories: batch-build arrays from generated streams (length 0..3000, element sizes from 1 byte to the inline limit, so that the last leaf / last index slab is left underfull at varying levels) and from existing containers, batch-copy maps with the source's seed and order (default and adversarial digesters; in a share of the builds the element stream first suffers a delivery fault - one element delivered twice, or two neighbours swapped - into a scratch storage: the build may refuse, but an accepted result must enumerate exactly Count() distinct keys, serve a lookup of every key and pass the structural verifier), CanCopyNonRefSimple/CopyNonRefSimple on every kind of container (inlined or standalone, with/without references, nested containers, values at the inline boundary), byte-slice<->byte-array both ways around the fast-path threshold; element providers that fail in the middle of the stream (the build must report it); a burst of 20-150 insertions into a freshly built container through the handle the build returned; larger sources (several index slabs per level) in a third of the runs; afterwards sources and results keep being mutated, committed, reloaded and disposed of independently; oracles: content vs model, structure of the result by the independent parser right after the bulk step, copy predicate, reachability with both as roots. Non-trivial = a batch-built container of >= 3 slabs and a successful copy occurred; distinct by trace hash",
 		ExpectedReach: []string{"bulk.array-built", "bulk.map-built", "bulk.from-existing", "bulk.empty", "copy.done", "copy.offered:false", "copy.of-inlined-or-nested", "bytes.to-array", "bytes.from-array", "bytes.from-array-refused", "reach.tree-height>=3", "fault.stream.duplicate", "fault.stream.reorder", "bulk.faulty-stream-refused"},
 	}, stdHooks{
@@ -43,7 +43,7 @@ func init() {
 			w.AfterStep = func(w *World, st *Step) *Violation {
 				switch st.Op {
 				case "bulk.arr", "bulk.map", "copy", "bytes.toarr":
-					if v := w.regCheck(regWhich{structure: true, reach: true, witness: true, sizes: true}); v != nil {
+					if v := w.regCheck(regWhich{structure: true, reach: true, witness: true, sizes: true, inline: true}); v != nil {
 						return v
 					}
 					return w.DeepLive(cmpOpts{order: true})
@@ -55,7 +55,7 @@ func init() {
 			if v := w.DeepLive(cmpOpts{lookups: true, order: true}); v != nil {
 				return v
 			}
-			return w.regCheck(regWhich{structure: true, reach: true, witness: true})
+			return w.regCheck(regWhich{structure: true, reach: true, witness: true, inline: true})
 		},
 		nontrivial: func(w *World, run *Stats, levels, slabs int) bool {
 			return run.C["bulk.array-built"]+run.C["bulk.map-built"] > 0 && run.C["copy.done"] > 0 && slabs >= 3
